@@ -270,10 +270,18 @@ func checkDiags(t *rapid.T, prop, dir string, fs []fault, ds diag.Diagnostics, h
 	wants := map[string]*want{}
 	for _, f := range fs {
 		for _, e := range f.expect {
-			w := wants[e.path]
+			key := e.path
+			if e.suffixOnly {
+				// under embedding only the last component is checked: expectations that share it cannot be
+				// told apart and are counted together
+				if i := strings.LastIndex(e.path, "."); i >= 0 {
+					key = "~" + e.path[i:]
+				}
+			}
+			w := wants[key]
 			if w == nil {
 				w = &want{e: e, kind: f.kind}
-				wants[e.path] = w
+				wants[key] = w
 			}
 			w.sites++ // faults at different sites of one field may produce distinct diagnostics for it
 		}
